@@ -6,6 +6,7 @@ import (
 	"net"
 	"net/netip"
 	"path/filepath"
+	"sync"
 	"time"
 
 	"github.com/AdguardTeam/AdGuardHome/internal/dhcpsvc"
@@ -97,6 +98,11 @@ type server struct {
 
 	// Called when the leases DB is modified
 	onLeaseChanged []OnLeaseChangedT
+
+	// dbStoreMu serializes the stores of the leases database, so that a store
+	// of an older state of the leases cannot finish after, and overwrite, a
+	// store of a newer one.
+	dbStoreMu sync.Mutex
 }
 
 // type check
